@@ -509,6 +509,36 @@ func c26Gen(w *bufio.Writer, seed int64, tier string) {
 			}
 		}
 	}
+	// chains of symbolic links as the FINAL component of a download (validateSymlinkTarget must follow
+	// them to the end): hop1 -> hop2 -> ... -> a file or directory inside / outside the allowed area
+	ends := []string{"../secret/key", "@/secret/key", "../secret", "a.txt", "pub", "@/etc/passwd", "nowhere", "../database"}
+	for _, end := range ends {
+		for hops := 1; hops <= 3; hops++ {
+			if tier != "thorough" && r.chance(35) {
+				continue
+			}
+			fmt.Fprintf(w, "reset 1 1 %s\n", hx(r.pickS("@/data", "@/data/**", "@/data/*")))
+			fmt.Fprintln(w, "pre dir data")
+			fmt.Fprintln(w, "pre dir data/pub")
+			fmt.Fprintln(w, "pre dir secret")
+			fmt.Fprintln(w, "pre dir etc")
+			fmt.Fprintln(w, "pre file data/a.txt c1x5")
+			fmt.Fprintln(w, "pre file secret/key c2x7")
+			fmt.Fprintln(w, "pre file etc/passwd c3x9")
+			fmt.Fprintln(w, "pre file database c4x4")
+			for h := 1; h <= hops; h++ {
+				t := fmt.Sprintf("hop%d", h+1)
+				if h == hops {
+					t = end
+				}
+				fmt.Fprintf(w, "pre sym data/hop%d %s\n", h, t)
+			}
+			req("dl", "@/data/hop1")
+			req("st", "@/data/hop1")
+			req("dl", "@/data/hop2")
+			req("ls", "@/data/hop1")
+		}
+	}
 	// pure validation: pattern forms x path forms
 	val := 300
 	if tier == "thorough" {
